@@ -165,6 +165,31 @@ def run_mixed(ctx, byte):
                         ok = False
                 if not ok:
                     ctx.fail(case, f"polynomial_from_attributes([{da} array, {db} array]) holds {[c.tolist() for c in p.coefficients]} ({p.dtype}); exact values {xa.tolist()}, {xb.tolist()} in {want_dt}", ["mixed", "value", f"a:{da}", f"b:{db}"])
+        # entries of different 64-bit types with an explicit integer dtype= request: every entry is cast on its own, as
+        # numpy.array([int64 2**53+1, uint64 7], dtype="int64") does - nothing passes through their lossy common type
+        # (seeded change C12-13: construct in the implied type, astype at the end)
+        big, huge = 2 ** 53 + 1, 2 ** 62 + 12345
+        for other in (numpy.uint64(7), numpy.float64(3.0), numpy.float32(2.0), numpy.complex128(5)):
+            for target in ("int64", "uint64"):
+                if isinstance(other, numpy.complexfloating):
+                    continue
+                builders = [("polynomial(list)", lambda: numpoly.polynomial([numpy.int64(big), other, numpy.int64(-huge if target == "int64" else huge)], dtype=target)),
+                            ("polynomial(dict)", lambda: numpoly.polynomial({(0,): numpy.int64(big), (1,): other, (2,): numpy.int64(huge)}, dtype=target)),
+                            ("aspolynomial(list)", lambda: numpoly.aspolynomial([numpy.int64(huge), other, numpy.int64(big)], dtype=target)),
+                            ("polynomial(nested list)", lambda: numpoly.polynomial([[numpy.int64(big), other], [other, numpy.int64(huge)]], dtype=target))]
+                for label, build in builders:
+                    ctx.evaluations += 1
+                    ctx.count("mixed.requested-dtype")
+                    case = {"kind": "mixed", "route": label, "other": repr(other), "target": target}
+                    try:
+                        p = build()
+                    except Exception as err:  # noqa: BLE001
+                        ctx.fail(case, f"{label} with {other!r} next to 64-bit integers, dtype={target} raised {type(err).__name__}: {str(err)[:100]}", ["mixed", "requested-dtype", "raises"])
+                        continue
+                    vals = sorted(int(v) for c in p.coefficients for v in numpy.asarray(c).ravel().tolist() if int(v) not in (0, int(other)))
+                    want = sorted(v for v in ([big, -huge if target == "int64" else huge] if label == "polynomial(list)" else [big, huge]))
+                    if str(p.dtype) != target or vals != want:
+                        ctx.fail(case, f"{label} with {other!r} next to int64 {big} / {huge}, dtype={target}: stored {vals} ({p.dtype}), numpy's cast of each entry gives {want}", ["mixed", "requested-dtype", "value"])
         # dict with Python scalars of different kinds
         for first, second in ((1, 2.5), (2.5, 1), (1, 1 + 2j), (True, 3)):
             ctx.evaluations += 1
@@ -287,6 +312,38 @@ def run_arithmetic(ctx, byte):
                             g = got.get(k, numpy.zeros(w.shape, dtype=wdt))
                             if not exact_equal(g, w.astype(wdt)) and numpy.any(w):
                                 ctx.fail(case, f"{da} {op} {db}: coefficient of q0**{k} is {numpy.asarray(g).tolist()}, numpy arithmetic gives {w.tolist()}", tags + ["value"])
+                                break
+            # a typed 0-d constant as the other operand - a 0-d constant polynomial, a numpy scalar, a 0-d array: unlike a Python
+            # number it carries its type into the promotion (seeded change C12-14: its *value* was handed to result_type)
+            for db in DTYPES:
+                xa, ya, yb = data(da), data(da)[::-1].copy(), data(db, ())
+                A = numpoly.polynomial_from_attributes([[1], [0]], [xa, ya], ("q0",), dtype=da)
+                for carrier, B in (("0-d constant polynomial", numpoly.polynomial_from_attributes([[0]], [yb], ("q0",), dtype=db)),
+                                   ("numpy scalar", yb[()]), ("0-d array", yb)):
+                    for op in ("add", "mul"):
+                        try:
+                            want = {1: numpy_arith("mul", xa, yb), 0: numpy_arith("mul", ya, yb)} if op == "mul" else \
+                                {1: xa.astype(numpy.result_type(xa, yb)), 0: numpy_arith("add", ya, yb)}
+                        except TypeError:
+                            continue
+                        case = {"kind": "arith", "op": op, "a": da, "b": db, "shapes": [[3], []], "carrier": carrier}
+                        tags = ["arith", f"op:{op}", f"a:{da}", f"b:{db}", "typed-0d"]
+                        ctx.evaluations += 1
+                        ctx.count("arith.typed-0d")
+                        try:
+                            R = A * B if op == "mul" else A + B
+                        except Exception as err:  # noqa: BLE001
+                            ctx.fail(case, f"{da} {op} {db} ({carrier}) raised {type(err).__name__}: {str(err)[:120]}", tags + [f"raises:{err_kind(err)}"])
+                            continue
+                        wdt = want[0].dtype
+                        if R.dtype != wdt:
+                            ctx.fail(case, f"{da} polynomial {op} {db} {carrier} has dtype {R.dtype}; numpy promotes to {wdt}", tags + ["dtype"])
+                            continue
+                        got = {int(e[0]): c for e, c in zip(R.exponents.tolist(), R.coefficients)}
+                        for k, w in want.items():
+                            g = got.get(k, numpy.zeros(w.shape, dtype=wdt))
+                            if not exact_equal(g, w.astype(wdt)) and numpy.any(w):
+                                ctx.fail(case, f"{da} polynomial {op} {db} {carrier}: coefficient of q0**{k} is {numpy.asarray(g).tolist()}, numpy arithmetic gives {w.tolist()}", tags + ["value"])
                                 break
             # an operand that *stores* an all-zero term (retained zero constant row): every cell of the product
             # must still be written, on the compiled path and on the numpy path
